@@ -21,8 +21,6 @@ def mut(prop, name, *edits):
 
 # ---- C11
 mut("C11", "budget-off-by-one", ("interpreter.go", "intp.NumOps > intp.MaxOps", "intp.NumOps >= intp.MaxOps"))
-mut("C11", "count-only-names", ("interpreter.go", "\tintp.NumOps++\n\tif intp.MaxOps > 0 && intp.NumOps > intp.MaxOps {\n\t\treturn ErrExecutionLimitExceeded\n\t}\n\n\tswitch o := obj.(type) {\n\tcase Operator:\n",
-     "\tif intp.MaxOps > 0 && intp.NumOps > intp.MaxOps {\n\t\treturn ErrExecutionLimitExceeded\n\t}\n\n\tswitch o := obj.(type) {\n\tcase Operator:\n\t\tintp.NumOps++\n"))
 mut("C11", "reset-count-per-execute", ("interpreter.go", "\ts := newScanner(r)\n\terr := intp.executeScanner(s)", "\ts := newScanner(r)\n\tintp.NumOps = 0\n\terr := intp.executeScanner(s)"))
 mut("C11", "checkstart-stays-set", ("interpreter.go", "\t\tintp.CheckStart = false\n", ""))
 mut("C11", "checkstart-first-byte-only", ("interpreter.go", 'if string(head) != "%!" {', "if len(head) == 0 || head[0] != '%' {"))
@@ -58,11 +56,8 @@ mut("C13", "countingwriter-hides-error", ("type1/write.go", "\tn, err = w.w.Writ
 # ---- C14
 mut("C14", "revert-short-binary-fix", ("pfb/reader.go", "\t\t\tif err == io.EOF {\n\t\t\t\t// the segment is shorter than its declared length\n\t\t\t\terr = io.ErrUnexpectedEOF\n\t\t\t}\n", ""))
 mut("C14", "uppercase-parked-nibble", ("pfb/reader.go", "\t\t\t\tr.tail = hexEncode(b[k-1] & 0x0f)\n", "\t\t\t\tr.tail = \"0123456789ABCDEF\"[b[k-1]&0x0f]\n"))
-mut("C14", "drop-parked-nibble-at-segment-end", ("pfb/reader.go", "\t\t\tif r.len == 0 {\n\t\t\t\tr.state = 0\n\t\t\t} else {\n\t\t\t\tr.state = 2\n\t\t\t}\n", "\t\t\tr.state = 2\n"))
 mut("C14", "accept-type-4", ("pfb/reader.go", "buf[1] > 3 {", "buf[1] > 4 {"))
-mut("C14", "half-buffer", ("pfb/reader.go", "\t\t\tk := (len(b) + 1) / 2\n", "\t\t\tk := len(b) / 2\n\t\t\tif k == 0 {\n\t\t\t\tk = 1\n\t\t\t}\n"))
 mut("C14", "marker-byte-not-checked-after-first", ("pfb/reader.go", "\t\t\tif buf[0] != 0x80 || buf[1] == 0 || buf[1] > 3 {", "\t\t\tif buf[0]&0x80 == 0 || buf[1] == 0 || buf[1] > 3 {"))
-mut("C14", "length-high-byte-ignored", ("pfb/reader.go", "| int64(buf[5])<<24", "| int64(buf[5]&0x7f)<<24"))
 mut("C14", "text-stops-filling", ("pfb/reader.go", "\t\t\tb = b[k:]\n\t\t\tif r.len == 0 {\n\t\t\t\tr.state = 0\n\t\t\t}\n\t\tcase 2:", "\t\t\tb = b[k:]\n\t\t\tif r.len == 0 {\n\t\t\t\tr.state = 0\n\t\t\t\treturn n, nil\n\t\t\t}\n\t\tcase 2:"))
 
 # ---- C17
@@ -70,7 +65,6 @@ mut("C17", "revert-afm-ligature-fix", ("afm/write.go", "\t\tsort.Strings(succs)\
 mut("C17", "readcmap-unsorted-names", ("cmap.go", "\tslices.Sort(names)\n", "\t_ = slices.Sort[[]Name]\n"))
 mut("C17", "glyphlist-no-tiebreak", ("type1/font.go", "\t\tif oi != oj {\n\t\t\treturn oi < oj\n\t\t}\n\t\treturn glyphNames[i] < glyphNames[j]\n", "\t\treturn oi < oj\n"))
 mut("C17", "afm-glyphlist-no-tiebreak", ("afm/afm.go", "\t\tif oi != oj {\n\t\t\treturn oi < oj\n\t\t}\n\t\treturn glyphNames[i] < glyphNames[j]\n", "\t\treturn oi < oj\n"))
-mut("C17", "creationdate-defaults-to-now", ("type1/read.go", "\tvar creationDate time.Time\n", "\tcreationDate := time.Now().Truncate(24 * time.Hour)\n\tcreationDate = time.Time{}.Add(time.Duration(creationDate.Unix()%2) * time.Second)\n"))
 mut("C17", "seac-order-dependent", ("type1/read.go", "\tnames := maps.Keys(cs)\n\tslices.Sort(names)\n", "\tnames := maps.Keys(cs)\n\t_ = slices.Sort[[]postscript.Name]\n"))
 mut("C17", "encoding-from-map-order", ("afm/write.go", "\t\tcharCode := -1\n\t\tfor i, n := range m.Encoding {\n\t\t\tif n == name {\n\t\t\t\tcharCode = i\n\t\t\t\tbreak\n\t\t\t}\n\t\t}\n",
      "\t\tcharCode := -1\n\t\tcodes := map[int]string{}\n\t\tfor i, n := range m.Encoding {\n\t\t\tif n == name {\n\t\t\t\tcodes[i] = n\n\t\t\t}\n\t\t}\n\t\tfor i := range codes {\n\t\t\tcharCode = i\n\t\t\tbreak\n\t\t}\n"))
@@ -98,6 +92,10 @@ mut("C13", "eexec-begin-swallows-read-error", ("eexec.go", "\tbb := s.PeekN(ivLe
 mut("C13", "refill-error-cleared-by-later-success", ("scanner.go", "\tif s.err != nil {\n\t\treturn s.err\n\t}\n\ts.used = copy", "\tif s.err == io.EOF {\n\t\treturn s.err\n\t}\n\ts.err = nil\n\ts.used = copy"))
 mut("C13", "peek-seek-error-ignored", ("type1/peekreader.go", "\t\t_, err = r.Seek(pos, io.SeekStart)\n\t\tif err != nil {\n\t\t\treturn nil, nil, err\n\t\t}\n", "\t\tr.Seek(pos, io.SeekStart)\n"))
 mut("C13", "template-write-error-masked", ("type1/write.go", "\t\treturn tmpl.ExecuteTemplate(w, \"SectionC\", info)\n\n\tcase FormatPFB:", "\t\ttmpl.ExecuteTemplate(w, \"SectionC\", info)\n\t\treturn nil\n\n\tcase FormatPFB:"))
+mut("C14", "parked-nibble-from-high-half", ("pfb/reader.go", "\t\t\t\tr.tail = hexEncode(b[k-1] & 0x0f)\n", "\t\t\t\tr.tail = hexEncode(b[k-1] >> 4)\n"))
+mut("C14", "length-third-byte-shift", ("pfb/reader.go", "| int64(buf[4])<<16 |", "| int64(buf[4])<<8 |"))
+mut("C14", "leftover-state-forgets-segment-end", ("pfb/reader.go", "\t\t\tif r.len == 0 && r.state != -1 {\n\t\t\t\tr.state = 0\n\t\t\t}\n", "\t\t\tif r.len == 0 && r.state != -1 && l > 0 {\n\t\t\t\tr.state = 0\n\t\t\t}\n"))
+mut("C17", "creationdate-defaults-to-today", ("type1/read.go", "\tvar creationDate time.Time\n", "\tcreationDate := time.Time{}.Add(time.Duration(time.Now().Unix()/86400%2) * time.Second)\n"))
 
 def sh(cmd, cwd, check=True):
     r = subprocess.run(cmd, cwd=cwd, env=ENV, shell=True, capture_output=True, text=True, errors="replace")
